@@ -38,8 +38,14 @@ impl<'de, const LENGTH: usize> Deserialize<'de> for StackByteArray<LENGTH> {
                         arr[idx] = elem;
                         idx += 1;
                     } else {
-                        break;
+                        // more elements than the fixed length: refuse instead of truncating
+                        return Err(Error::invalid_length(idx + 1, &stringify!(LENGTH)));
                     }
+                }
+
+                if idx != LENGTH {
+                    // fewer elements than the fixed length: refuse instead of zero-padding
+                    return Err(Error::invalid_length(idx, &stringify!(LENGTH)));
                 }
 
                 Ok(arr)
